@@ -1,7 +1,7 @@
 PROP = {
     "id": "C46",
     "theorem_modules": ["Verif.Properties.C46"],
-    "min_theorems": 13,
+    "min_theorems": 18,
     "required_theorems": [
         "Verif.Properties.C46.rlpDecodeString_no_panic",
         "Verif.Properties.C46.rlpDecodeList_no_panic",
@@ -13,6 +13,11 @@ PROP = {
         "Verif.Properties.C46.list_rejects_rest",
         "Verif.Properties.C46.list_accepted_size",
         "Verif.Properties.C46.list_noncanonical_is_user_error",
+        "Verif.Properties.C46.specDecodeString_iff",
+        "Verif.Properties.C46.isFrameB_iff",
+        "Verif.Properties.C46.specDecodeList_iff",
+        "Verif.Properties.C46.rlpDecodeString_eq_spec",
+        "Verif.Properties.C46.rlpDecodeList_eq_spec",
     ],
     "streams": [
         {"name": "rlp", "driver": "drv_rlp",
@@ -20,14 +25,21 @@ PROP = {
     ],
     "exhaustive": False,
     "technique": "Lean 4 proof over a line-by-line port of the RLP decoder + correspondence stream (exhaustive on short inputs)",
-    "level_text": "Lean theorems about a code-shaped model of stdlib/rlp (no Go panic / non-termination for any input; "
-                  "accepts exactly the canonical encodings), tied to /repo by the `rlp` correspondence stream: all byte "
-                  "strings of length <= 2 (<= 3 thorough), canonical encodings of random nested items and mutations with "
-                  "extreme length prefixes, through rlp.DecodeString/DecodeList and through RLP.decodeString/decodeList "
-                  "scripts in both engines; an independent executable spec (reference encoder) judges the Go answers.",
+    "level_text": "Lean theorems about a code-shaped model of stdlib/rlp: no Go panic / non-termination for any input; "
+                  "exactness: RLP.decodeString accepts exactly encodeString s (|s| <= MaxInt64) and returns s, "
+                  "RLP.decodeList accepts exactly encodeList of a sequence of frames and returns those frames, every "
+                  "other input is a returned user error (string_/list_accepts_canonical, _rejects_rest, "
+                  "_noncanonical_is_user_error); the executable oracles of the driver are proved equivalent to the "
+                  "declarative spec in full (specDecodeString_iff, isFrameB_iff, specDecodeList_iff incl. uniqueness of "
+                  "frame splitting) and equal to the model wrappers on every input (rlpDecode*_eq_spec). Tied to /repo "
+                  "by the `rlp` correspondence stream: all byte strings of length <= 2 (<= 3 thorough), canonical "
+                  "encodings of random nested items and mutations with extreme length prefixes, through "
+                  "rlp.DecodeString/DecodeList and through RLP.decodeString/decodeList scripts in both engines; the "
+                  "independent executable spec (reference encoder) judges the Go answers.",
     "level_note": "Trusted: Lean kernel; the hand-written port (validated by the stream, every line compared); the "
                   "harness and driver. Go int is modelled as Nat, justified by decodeString_bytesRead_in_input "
-                  "(indices never exceed len(inp) < 2^63).",
+                  "(indices never exceed len(inp) < 2^63). DecodeList is shallow, so list exactness is over frames "
+                  "(canonical header + announced number of bytes).",
     "assumptions": ["len(inp) < 2^63 (any Go slice)", "a Go slice expression beyond len is treated as a panic in the model"],
     "trusted_base": ["hand-written port Verif.Model.Rlp validated by stream rlp", "Go harness cmd/vharness/stream_rlp.go", "driver Drv/Rlp.lean"],
 }
